@@ -134,6 +134,8 @@ def run(ctx):
             'yatiml.loader:Loader.__init__:resolver-patch', loc,
             'Loader.__init__ does not change the implicit resolver table: YAML 1.1 typing would be in force')
     r.done()
+    from . import memo_rules as MR
+    MR.memo_sound(ctx, 'C09.M')
 
     bool_l = M.tag_lang(M.T_load, T + 'bool')
     float_l = M.tag_lang(M.T_load, T + 'float')
